@@ -8,7 +8,7 @@ export CARGO_NET_OFFLINE=true
 export VERIF_ROOT="$ROOT"
 mkdir -p "$ROOT/build" "$ROOT/evidence"
 cd "$ROOT/harness"
-cargo build --release --offline 2>&1 | tail -n 3
+cargo build --release --offline --target-dir "$ROOT/build/harness" 2>&1 | tail -n 3
 "$ROOT/build/harness/release/avra-verif" selfcheck
 # best effort, never fatal
 cargo build --offline --manifest-path /repo/Cargo.toml --target-dir "$ROOT/build/cli" --bin avra-rs >/dev/null 2>&1 || echo "note: CLI warm-up build failed (C18 will report)"
